@@ -3,7 +3,7 @@ from __future__ import annotations
 import asyncio
 import sys
 from functools import partial
-from typing import Any, Callable
+from typing import Any, Callable, Optional
 
 from ..config import Config
 from ..typing import AppWrapper, ASGIReceiveEvent, ASGISendEvent, LifespanScope, LifespanState
@@ -31,6 +31,7 @@ class Lifespan:
         self.shutdown = asyncio.Event()
         self.app_queue: asyncio.Queue = asyncio.Queue(config.max_app_queue_size)
         self.supported = True
+        self._failure: Optional[LifespanFailureError] = None
         self.loop = loop
         self.state = lifespan_state
 
@@ -59,6 +60,9 @@ class Lifespan:
                 partial(self.loop.run_in_executor, None),
                 _call_soon,
             )
+            if self._failure is not None:
+                # The app handled the error raised by its send
+                raise self._failure
         except (LifespanFailureError, asyncio.CancelledError):
             raise
         except (BaseExceptionGroup, Exception) as error:
@@ -116,9 +120,11 @@ class Lifespan:
             # The startup event is set once the app has unwound (see
             # handle_lifespan), so that the failure is visible to
             # whatever waits for startup.
-            raise LifespanFailureError("startup", message.get("message", ""))
+            self._failure = LifespanFailureError("startup", message.get("message", ""))
+            raise self._failure
         elif message["type"] == "lifespan.shutdown.failed":
             self.shutdown.set()
-            raise LifespanFailureError("shutdown", message.get("message", ""))
+            self._failure = LifespanFailureError("shutdown", message.get("message", ""))
+            raise self._failure
         else:
             raise UnexpectedMessageError(message["type"])
